@@ -85,9 +85,11 @@ Theorem C07_linear_body :
     length (cevals (snd (parse_body_with true fuel toks))) <= 3 * (length toks + 1).
 Proof. intros fuel toks Hf. apply OnceLog_linear. apply (body_once fuel toks Hf). Qed.
 
-(* What "evaluated" means for the log.  parse_primary and parse_expr (wrapper [memo]): a miss evaluates
-   the parser once, logs the key and stores the result, errors included, so the log contains EVERY
-   evaluation of caches 0 and 1 and C07_once is the statement "at most once" for them. *)
+(* What "evaluated" means for the log.  parse_primary, parse_expr and (since /repo commit c0beeea)
+   parse_method_call all use the wrapper [memo]: a miss evaluates the parser once, logs the key and
+   stores the result, errors included, so every later call at that position is a hit.  The log
+   therefore contains EVERY evaluation of caches 0, 1 and 2, and C07_once is the statement "each
+   memoised sub-parser is evaluated at most once per token position within a method body". *)
 Theorem C07_memo_miss_stores :
   forall k p i c, get_cache k (ilen i) c = None -> cmemo (snd (p i c)) = true -> returns_normally (fst (p i c)) ->
     fst (memo k p i c) = fst (p i c) /\
@@ -95,39 +97,43 @@ Theorem C07_memo_miss_stores :
     get_cache k (ilen i) (snd (memo k p i c)) = Some (fst (p i c)).
 Proof. exact memo_miss_stores. Qed.
 
-(* parse_method_call (wrapper [memo_ok_only]) stores and logs SUCCESSES only: C07_once covers its
-   successful evaluations (at most one per position); a FAILING evaluation leaves no trace ... *)
-Theorem C07_method_call_failure_not_stored :
+Theorem C07_method_call_is_memo :
+  forall re, parse_method_call re = memo CACHE_METHOD_CALL (method_call_body re).
+Proof. exact parse_method_call_eq. Qed.
+
+Definition is_err {A} (r : res A) : bool := match r with Err _ _ => true | _ => false end.
+
+(* regression: on the body `a` a failing parse_method_call is evaluated ONCE: the first call fails
+   (no `(`), logs (2, 1) and stores the error; the second call at that position is a hit *)
+Theorem C07_method_call_failure_stored :
+  exists body,
+    let '(r1, cached, r2, log) := method_call_twice (body_fuel body) body in
+    is_err r1 = true /\ (match cached with Some r => is_err r | None => false end) = true /\
+    is_err r2 = true /\ log = [(CACHE_METHOD_CALL, 1%N)].
+Proof. exists (fst (lex text_a)). vm_compute. auto. Qed.
+
+(* regression, the step before c0beeea ([old_parse_method_call], wrapper [memo_ok_only]: successes
+   only were stored): "at most once" was false for method calls -- on the body `a` the first call
+   failed, left no cache entry and no log entry, and the second call at the same position was
+   evaluated, and failed, again *)
+Theorem C07_old_method_call_refuted :
+  exists body,
+    let '(r1, cached, r2, log) := old_method_call_twice (body_fuel body) body in
+    is_err r1 = true /\ cached = None /\ is_err r2 = true /\ log = [].
+Proof. exists (fst (lex text_a)). vm_compute. auto. Qed.
+
+Theorem C07_old_method_call_failure_not_stored :
   forall k p i c e m, get_cache k (ilen i) c = None -> fst (p i c) = Err e m ->
     memo_ok_only k p i c = p i c.
 Proof. exact memo_ok_only_failure_not_stored. Qed.
 
-Theorem C07_method_call_success_stored :
-  forall k p i c rest a, get_cache k (ilen i) c = None -> cmemo (snd (p i c)) = true -> fst (p i c) = Ok rest a ->
-    cevals (snd (memo_ok_only k p i c)) = (k, ilen i) :: cevals (snd (p i c)) /\
-    get_cache k (ilen i) (snd (memo_ok_only k p i c)) = Some (Ok rest a).
-Proof. exact memo_ok_only_success_stored. Qed.
-
-(* ... so "each memoised sub-parser is evaluated at most once per token position" is FALSE for
-   parse_method_call: on the body `a` the first call fails (no `(`), the cache has no entry for the
-   position afterwards, and the second call at the same position evaluates -- and fails -- again.
-   (parse_primary does exactly this: parse_unary_op and then parse_dot_ops both reach
-   parse_method_call at the position of the primary.) *)
-Definition is_err {A} (r : res A) : bool := match r with Err _ _ => true | _ => false end.
-
-Theorem C07_once_method_call_refuted :
-  exists body,
-    let '(r1, cached, r2, log) := method_call_twice (body_fuel body) body in
-    is_err r1 = true /\ cached = None /\ is_err r2 = true /\ log = [].
-Proof. exists (fst (lex text_a)). vm_compute. auto. Qed.
-
-(* non-vacuity: `f(f(1))` newline `x=((1))` -- 14 tokens; memoisation answers 21 of the 35
+(* non-vacuity: `f(f(1))` newline `x=((1))` -- 14 tokens; memoisation answers 33 of the 50
    evaluations the un-memoised parser performs, the trees agree, no evaluation is repeated *)
 Example C07_nonvacuous :
   let toks := fst (lex text_calls) in
   length toks = 14 /\ length toks < body_fuel toks /\
-  length (cevals (snd (parse_body_with true (body_fuel toks) toks))) = 14 /\
-  length (cevals (snd (parse_body_with false (body_fuel toks) toks))) = 35 /\
+  length (cevals (snd (parse_body_with true (body_fuel toks) toks))) = 17 /\
+  length (cevals (snd (parse_body_with false (body_fuel toks) toks))) = 50 /\
   match fst (parse_body_with true (body_fuel toks) toks) with Ok [] [_; _] => True | _ => False end.
 Proof. vm_compute. repeat split; auto. Qed.
 
@@ -165,9 +171,10 @@ Print Assumptions C07_once_body.
 Print Assumptions C07_linear.
 Print Assumptions C07_linear_body.
 Print Assumptions C07_memo_miss_stores.
-Print Assumptions C07_method_call_failure_not_stored.
-Print Assumptions C07_method_call_success_stored.
-Print Assumptions C07_once_method_call_refuted.
+Print Assumptions C07_method_call_is_memo.
+Print Assumptions C07_method_call_failure_stored.
+Print Assumptions C07_old_method_call_refuted.
+Print Assumptions C07_old_method_call_failure_not_stored.
 Print Assumptions C07_nonvacuous.
 Print Assumptions C07_nonvacuous_two_bodies.
 Print Assumptions C07_once_nonvacuous.
